@@ -50,6 +50,33 @@ def run(ctx, F, cg):
             ctx.ok("R34c", short, "bound repair via %s" % sorted({x.rsplit("::", 1)[-1] for x in (rep or minmax)}))
         else:
             ctx.violation("R34c", short + "|no-bound-repair", where(F.fns[s]), "solve() never clamps candidates to the variable bounds")
+    # ---- R34e: nothing a solver computes depends on the number of threads -----------------------------------------
+    ctx.rule("R34e", "no solver reads the number of worker threads (rayon::current_num_threads, available_parallelism, num_cpus): a work partition, block size or RNG stream derived from it makes the same seed give different results on different pools")
+    THREADS = ("current_num_threads", "available_parallelism", "max_num_threads", "num_cpus::get", "get_physical")
+    n_t = 0
+    for s_ in solves:
+        short = s_.replace(CRATE + "algorithms::", "").replace("::solve", "")
+        bodies = [s_] + [c for c in F.fns if c.startswith(s_ + "::{closure")]
+        hits = []
+        for bp in bodies:
+            r_ = F.fns.get(bp)
+            if not r_:
+                continue
+            for c in r_["calls"]:
+                if any(c.endswith(t) or c.endswith(t + "()") or ("::" + t) in c for t in THREADS):
+                    hits.append((bp, c))
+        # helpers of the crate reached from solve
+        for n in allr[s_]:
+            if n in F.fns and in_crate(n) and n not in bodies:
+                for c in F.fns[n]["calls"]:
+                    if any(("::" + t) in c or c.endswith(t) for t in THREADS):
+                        hits.append((n, c))
+        n_t += 1
+        if hits:
+            ctx.violation("R34e", short + "|reads-thread-count", where(F.fns[s_]), "solve() reads the number of worker threads (%s in %s): whatever is sized or seeded from it differs between a 1-thread and an 8-thread pool" % (hits[0][1].rsplit("::", 1)[-1], hits[0][0].replace(CRATE, "")))
+        else:
+            ctx.ok("R34e", short, "no thread-count source reachable inside the crate")
+    ctx.floor("R34e", "solvers examined for thread-count sources", n_t, 29)
     # ---- R34d ------------------------------------------------------------------------------------------
     per = {}
     total = 0
